@@ -3,6 +3,7 @@
 export GOFLAGS=-mod=mod GOPROXY=off GOSUMDB=off GOTOOLCHAIN=local
 ALL="C01 C02 C03 C04 C05 C06 C08 C09 C10 C11 C12 C13 C14 C15 C17 C18"
 for d in "$@"; do
+  d=$(cd "$d" && pwd)
   name=$(basename "$d")
   w=$(mktemp -d /tmp/seedmx-XXXXXX)
   git -C /repo archive HEAD | tar -x -C "$w"
